@@ -11,7 +11,7 @@
   * `SorterB` simulates `Sorter` call by call.
 -/
 import Grenad.Model.EntriesBytes
-import Grenad.Proofs.SorterArith
+import Grenad.Proofs.SorterRun
 
 namespace Grenad
 namespace EntriesB
@@ -445,5 +445,619 @@ theorem reallocate_big (g : Nat → Nat → UInt8) {b : EntriesB} {items : List 
     simp [hg, alloc, Entries.alloc, Entries.roundUp_of_mod (show b.buf.length * 2 % 16 = 0 by omega),
       c2, c3]
 
+/-! ### The representation invariant and the simulation -/
+
+/-- **Representation invariant.**  `b` represents the numeric buffer `e`, and iterating `b`
+    yields `view` (a permutation of `e.items`: `e.items` itself until the bounds are sorted). -/
+structure Rep (b : EntriesB) (e : Entries) (view : List Entry) : Prop where
+  abs   : Abs b e
+  inv   : Entries.Inv e
+  small : b.buf.length < 2 ^ 63
+  lay   : ∃ bounds gap, Lay b e.items bounds gap ∧
+            bounds.map (denote (backBytes e.items)) = view
+  perm  : view.Perm e.items
+
+/-- Two results agree: both fail with the same error, or both succeed with related values. -/
+def ResRel {ε α β : Type} (R : α → β → Prop) : Except ε α → Except ε β → Prop
+  | .ok a, .ok b => R a b
+  | .error x, .error y => x = y
+  | _, _ => False
+
+theorem fits_eq_of_abs {b : EntriesB} {e : Entries} (h : Abs b e) (k v : Bytes) :
+    fits b k v = Entries.fits e k v := by
+  unfold fits Entries.fits remaining Entries.remaining
+  simp only [h.elen, h.cnt, h.len, h.live, Bool.not_true, Bool.false_eq_true, if_false]
+  rfl
+
+theorem Rep.store {b : EntriesB} {e : Entries} {view : List Entry} (h : Rep b e view)
+    (k v : Bytes) (hk : k.length ≤ u32Max) (hv : v.length ≤ u32Max)
+    (hfit : e.used + Entries.entrySize k v ≤ e.bufLen) :
+    ∃ b', EntriesB.store b k v = .ok b' ∧ Rep b' (e.push k v) (view ++ [(k, v)]) := by
+  obtain ⟨bounds, gap, hl, hview⟩ := h.lay
+  have hlen := hl.length
+  have ha := h.abs
+  have hsm := h.small
+  unfold Entries.used Entries.entrySize boundSize at hfit
+  unfold u32Max at hk hv
+  rw [← ha.elen, ← ha.cnt, ha.len] at hfit
+  obtain ⟨b', gap', hs, hl', hlen', hel', hcnt'⟩ :=
+    store_lay hl k v (by omega) (by omega) (by omega) (by omega)
+  refine ⟨b', hs, ⟨?_, ?_, ?_, ?_⟩, ?_, ?_, ⟨_, gap', hl', ?_⟩, ?_⟩
+  · show b'.entriesLen = e.entriesLen + k.length + v.length
+    rw [hel', ha.elen]
+  · show b'.boundsCount = e.boundsCount + 1
+    rw [hcnt', ha.cnt]
+  · show e.bufLen = b'.buf.length
+    rw [hlen', ha.len]
+  · exact ha.live
+  · refine h.inv.push k v ?_
+    unfold Entries.used Entries.entrySize boundSize
+    rw [← ha.elen, ← ha.cnt, ha.len]; exact hfit
+  · rw [hlen']; exact hsm
+  · show List.map (denote (backBytes (e.items ++ [(k, v)]))) (bounds ++ [newBound e.items k v])
+      = view ++ [(k, v)]
+    rw [backBytes_snoc, List.map_append, ← hview]
+    congr 1
+    · exact List.map_congr_left (fun bd hbd => denote_prepend (hl.rng bd hbd) _)
+    · have := denote_new (backBytes e.items) k v
+      rw [backBytes_length] at this
+      simp only [List.map_cons, List.map_nil, newBound, this]
+  · exact h.perm.append_right _
+
+theorem Rep.realloc (g : Nat → Nat → UInt8) {b : EntriesB} {e : Entries} {view : List Entry}
+    (h : Rep b e view) (hsm : e.bufLen < 2 ^ 62) :
+    ∃ b', reallocate g b = .ok (b', [.alloc (e.bufLen * 2), .dealloc e.bufLen]) ∧
+      Rep b' (e.scale 1) view := by
+  obtain ⟨bounds, gap, hl, hview⟩ := h.lay
+  have ha := h.abs
+  have hi := h.inv
+  obtain ⟨b', gap', hr, hl', hlen', hel', hcnt'⟩ :=
+    reallocate_lay g hl (by rw [← ha.len]; exact hi.align) (by rw [← ha.len]; exact hi.pos)
+      (by rw [← ha.len]; exact hsm)
+  refine ⟨b', by rw [hr, ha.len], ⟨?_, ?_, ?_, ha.live⟩, hi.scale 1, ?_, ⟨bounds, gap', hl', hview⟩,
+    h.perm⟩
+  · rw [hel']; exact ha.elen
+  · rw [hcnt']; exact ha.cnt
+  · show e.bufLen * 2 ^ 1 = b'.buf.length
+    rw [hlen', ha.len]
+  · rw [hlen', ← ha.len]; omega
+
+theorem Rep.realloc_big (g : Nat → Nat → UInt8) {b : EntriesB} {e : Entries} {view : List Entry}
+    (h : Rep b e view) (hbig : 2 ^ 62 ≤ e.bufLen) : reallocate g b = .error .arith := by
+  obtain ⟨bounds, gap, hl, _⟩ := h.lay
+  exact reallocate_big g hl (by rw [← h.abs.len]; exact h.inv.align) (by rw [← h.abs.len]; exact hbig)
+
+/-- **Simulation of `insert`** (any fuel, any key and value, any fresh-memory contents): the
+    byte-level doubling loop fails exactly when the numeric one does, with the same trap; otherwise
+    both emit the same allocation events and the results are related, the view gaining `(k, v)` at
+    its end. -/
+theorem insert_sim (g : Nat → Nat → UInt8) (k v : Bytes) (fuel : Nat) :
+    ∀ {b : EntriesB} {e : Entries} {view : List Entry}, Rep b e view →
+    ResRel (fun rb re => rb.2 = re.2 ∧ Rep rb.1 re.1 (view ++ [(k, v)]))
+      (insert g b k v fuel) (Entries.insert e k v fuel) := by
+  induction fuel with
+  | zero => intro b e view _; simp [insert, Entries.insert, ResRel]
+  | succ fuel ih =>
+    intro b e view h
+    rw [Entries.insert_succ h.inv, insert, fits_eq_of_abs h.abs, Entries.fits_eq h.inv]
+    by_cases hk : k.length > u32Max
+    · simp [hk, ResRel]
+    by_cases hv : v.length > u32Max
+    · simp [hk, hv, ResRel]
+    simp only [hk, hv, if_false]
+    by_cases hf : e.used + Entries.entrySize k v ≤ e.bufLen
+    · obtain ⟨b', hs, hr⟩ := h.store k v (by omega) (by omega) hf
+      simp only [hf, decide_true, if_true, hs, Except.map, ResRel]
+      exact ⟨trivial, hr⟩
+    simp only [hf, decide_false, if_false]
+    by_cases hb : 2 ^ 62 ≤ e.bufLen
+    · simp [hb, h.realloc_big g hb, ResRel]
+    simp only [hb, if_false]
+    obtain ⟨b', hr, hrep⟩ := h.realloc g (by omega)
+    rw [hr]
+    dsimp only
+    have := ih hrep
+    revert this
+    generalize insert g b' k v fuel = rb
+    generalize Entries.insert (e.scale 1) k v fuel = re
+    rcases rb with tb | ⟨b'', evb⟩ <;> rcases re with te | ⟨e'', eve⟩ <;> simp [ResRel]
+
+/-- **`with_capacity`** establishes the invariant (or fails as the numeric model does). -/
+theorem withCapacity_sim (g : Nat → Nat → UInt8) (cap : Nat) :
+    ResRel (fun rb re => rb.2 = re.2 ∧ Rep rb.1 re.1 [] ∧ re.1.items = [])
+      (withCapacity g cap) (Entries.withCapacity cap) := by
+  unfold withCapacity alloc Entries.withCapacity Entries.alloc
+  have hm := Entries.roundUp_mod cap
+  by_cases h0 : Entries.roundUp cap = 0
+  · simp [h0, ResRel]
+  by_cases h1 : Entries.roundUp cap ≥ 2 ^ 63
+  · simp [h0, h1, ResRel]
+  simp only [h0, h1, if_false, ResRel]
+  refine ⟨trivial, ⟨⟨rfl, rfl, by simp, rfl⟩, ⟨hm, ?_, ?_, rfl, rfl, rfl⟩, ?_, ⟨[], fresh g (Entries.roundUp cap), ?_, rfl⟩,
+    List.Perm.nil⟩, trivial⟩
+  · show 16 ≤ Entries.roundUp cap
+    omega
+  · show 0 + 16 * 0 ≤ Entries.roundUp cap
+    omega
+  · show (fresh g (Entries.roundUp cap)).length < 2 ^ 63
+    simp; omega
+  · exact ⟨by simp [encodeBounds, backBytes], rfl, rfl, by simp⟩
+
+theorem splitBounds_eq {b : EntriesB} {items : List Entry} {bounds : List EntryBound} {gap : Bytes}
+    (h : Lay b items bounds gap) : splitBounds b = .ok (bounds, gap ++ backBytes items) := by
+  have hlen := h.length
+  have hE : (encodeBounds bounds).length = b.boundsCount * boundSize := by
+    simp [h.cnt, boundSize]; omega
+  unfold splitBounds
+  rw [if_neg (by simp only [boundSize]; omega)]
+  have h1 : b.buf.take (b.boundsCount * boundSize) = encodeBounds bounds := by
+    rw [h.buf]; exact List.take_left' hE
+  have h2 : b.buf.drop (b.boundsCount * boundSize) = gap ++ backBytes items := by
+    rw [h.buf]; exact List.drop_left' hE
+  have h3 := decodeBounds_encodeBounds bounds (fun bd hbd => (h.rng bd hbd).2.2) []
+  rw [List.append_nil] at h3
+  rw [h1, h2, h.cnt, h3]
+
+/-- **`iter`** returns the view: every bound is decoded as it was encoded, and every slice of the
+    tail is in range and yields the bytes of the entry the bound denotes. -/
+theorem Rep.iter {b : EntriesB} {e : Entries} {view : List Entry} (h : Rep b e view) :
+    EntriesB.iter b = .ok view := by
+  obtain ⟨bounds, gap, hl, hview⟩ := h.lay
+  unfold EntriesB.iter
+  rw [splitBounds_eq hl]
+  simp only
+  rw [readEntries_eq _ _ _ hl.rng, hview]
+
+/-- The two regions never overlap. -/
+theorem Rep.disjoint {b : EntriesB} {e : Entries} {view : List Entry} (h : Rep b e view) :
+    16 * b.boundsCount + b.entriesLen ≤ b.buf.length := by
+  obtain ⟨bounds, gap, hl, _⟩ := h.lay
+  exact hl.disjoint
+
+/-- The keyed bound list `sort_by_key` works on. -/
+def keyed (back : Bytes) (bounds : List EntryBound) : List (Bytes × EntryBound) :=
+  bounds.map (fun bd => ((denote back bd).1, bd))
+
+theorem keyed_snd (back : Bytes) (bounds : List EntryBound) :
+    (keyed back bounds).map (·.2) = bounds := by
+  induction bounds with
+  | nil => rfl
+  | cons bd r ih => simp only [keyed, List.map_cons] at ih ⊢; rw [ih]
+
+theorem keyed_denote (back : Bytes) (bounds : List EntryBound) :
+    (keyed back bounds).map (fun p => denote back p.2) = bounds.map (denote back) := by
+  induction bounds with
+  | nil => rfl
+  | cons bd r ih => simp only [keyed, List.map_cons] at ih ⊢; rw [ih]
+
+theorem keyed_key {back : Bytes} {bounds : List EntryBound} {p : Bytes × EntryBound}
+    (hp : p ∈ keyed back bounds) : (denote back p.2).1 = p.1 := by
+  simp only [keyed, List.mem_map] at hp
+  obtain ⟨bd, _, rfl⟩ := hp
+  rfl
+
+/-- **`sort_by_key` with any permuting `sort`**: the bounds area is overwritten in place by the
+    permuted records (same length, so the write stays inside the bounds area); the entry bytes are
+    untouched; the view becomes the same permutation of the old view. -/
+theorem Rep.sortWith_core {b : EntriesB} {e : Entries} {view : List Entry} (h : Rep b e view)
+    (sort : List (Bytes × EntryBound) → List (Bytes × EntryBound))
+    (hperm : ∀ l, (sort l).Perm l) :
+    ∃ bounds, bounds.map (denote (backBytes e.items)) = view ∧
+      (∀ bd ∈ bounds, InRange (backBytes e.items) bd) ∧
+      ∃ b', sortBoundsWith sort b = .ok b' ∧
+        Rep b' e ((sort (keyed (backBytes e.items) bounds)).map (fun p => denote (backBytes e.items) p.2)) := by
+  obtain ⟨bounds, gap, hl, hview⟩ := h.lay
+  refine ⟨bounds, hview, hl.rng, ?_⟩
+  let back := backBytes e.items
+  let bounds' := (sort (keyed back bounds)).map (·.2)
+  have hp : bounds'.Perm bounds := by
+    have := (hperm (keyed back bounds)).map (·.2)
+    rwa [keyed_snd] at this
+  have hw : writeAt b.buf 0 (encodeBounds bounds') = .ok (encodeBounds bounds' ++ (gap ++ back)) := by
+    rw [hl.buf]
+    exact writeAt_front _ _ _ (by simp [hp.length_eq])
+  refine ⟨{ b with buf := encodeBounds bounds' ++ (gap ++ back) }, ?_,
+    ⟨h.abs.elen, h.abs.cnt, ?_, h.abs.live⟩,
+    h.inv, ?_, ⟨bounds', gap, ⟨rfl, ?_, hl.elen, ?_⟩, ?_⟩, ?_⟩
+  · unfold sortBoundsWith
+    rw [splitBounds_eq hl]
+    simp only
+    rw [readKeys_eq _ _ _ hl.rng]
+    simp only
+    rw [show (List.map (fun bd => ((denote (backBytes e.items) bd).fst, bd)) bounds)
+      = keyed back bounds from rfl, hw]
+  · show e.bufLen = (encodeBounds bounds' ++ (gap ++ back)).length
+    rw [h.abs.len, hl.buf]; simp [hp.length_eq, back]
+  · show (encodeBounds bounds' ++ (gap ++ back)).length < 2 ^ 63
+    have := h.small
+    rw [hl.buf] at this
+    simpa [hp.length_eq, back] using this
+  · show b.boundsCount = bounds'.length
+    rw [hl.cnt, hp.length_eq]
+  · intro bd hbd
+    exact hl.rng bd (hp.mem_iff.1 hbd)
+  · show List.map (denote back) (List.map (·.2) (sort (keyed back bounds))) = _
+    rw [List.map_map]; rfl
+  · refine List.Perm.trans ?_ h.perm
+    rw [← hview, ← keyed_denote]
+    exact (hperm _).map _
+
+/-- **Sorting with any permuting sort**: the result iterates to a permutation of the old view,
+    ordered by key however `sort` orders its output. -/
+theorem Rep.sortWith {b : EntriesB} {e : Entries} {view : List Entry} (h : Rep b e view)
+    (sort : List (Bytes × EntryBound) → List (Bytes × EntryBound))
+    (hperm : ∀ l, (sort l).Perm l) :
+    ∃ b' view', sortBoundsWith sort b = .ok b' ∧ Rep b' e view' ∧ view'.Perm view ∧
+      ∀ R : Bytes → Bytes → Prop, (∀ l, (sort l).Pairwise (fun p q => R p.1 q.1)) →
+        view'.Pairwise (fun x y => R x.1 y.1) := by
+  obtain ⟨bounds, hview, _, b', hs, hr⟩ := h.sortWith_core sort hperm
+  refine ⟨b', _, hs, hr, ?_, ?_⟩
+  · rw [← hview]
+    rw [← keyed_denote]
+    exact (hperm _).map _
+  · intro R hR
+    rw [List.pairwise_map]
+    refine (hR (keyed (backBytes e.items) bounds)).imp_of_mem ?_
+    intro p q hp hq hpq
+    rw [keyed_key ((hperm _).mem_iff.1 hp), keyed_key ((hperm _).mem_iff.1 hq)]
+    exact hpq
+
+/-- **`sort_by_key(Stable)`**: afterwards the buffer iterates to `Sorter.sortStable view`. -/
+theorem Rep.sortStable {b : EntriesB} {e : Entries} {view : List Entry} (h : Rep b e view) :
+    ∃ b', sortBounds b = .ok b' ∧ Rep b' e (Sorter.sortStable view) := by
+  obtain ⟨bounds, hview, _, b', hs, hr⟩ :=
+    h.sortWith_core stableByKey (fun l => List.mergeSort_perm l _)
+  refine ⟨b', hs, ?_⟩
+  have : (stableByKey (keyed (backBytes e.items) bounds)).map
+      (fun p => denote (backBytes e.items) p.2) = Sorter.sortStable view := by
+    unfold stableByKey Sorter.sortStable
+    rw [List.map_mergeSort (s := fun a b => decide (a.1 ≤ b.1))]
+    · rw [keyed_denote, hview]
+    · intro p hp q hq
+      rw [keyed_key hp, keyed_key hq]
+  rwa [this] at hr
+
+/-- **`clear`**. -/
+theorem Rep.clear {b : EntriesB} {e : Entries} {view : List Entry} (h : Rep b e view) :
+    Rep b.clear e.clear [] := by
+  refine ⟨⟨rfl, rfl, h.abs.len, h.abs.live⟩, h.inv.clear, h.small, ⟨[], b.buf, ⟨?_, rfl, rfl, by simp⟩, rfl⟩,
+    List.Perm.nil⟩
+  show b.buf = encodeBounds [] ++ (b.buf ++ backBytes [])
+  simp [encodeBounds, backBytes]
+
+theorem ResRel.mono {ε α β : Type} {R R' : α → β → Prop} {x : Except ε α} {y : Except ε β}
+    (h : ResRel R x y) (hRR : ∀ a b, x = .ok a → y = .ok b → R a b → R' a b) : ResRel R' x y := by
+  rcases x with tx | a <;> rcases y with ty | b' <;> simp only [ResRel] at h ⊢
+  · exact h
+  · exact hRR a b' rfl rfl h
+
+theorem ResRel.ok_left {ε α β : Type} {R : α → β → Prop} {x : Except ε α} {y : Except ε β} {a : α}
+    (h : ResRel R x y) (hx : x = .ok a) : ∃ b, y = .ok b ∧ R a b := by
+  subst hx
+  rcases y with ty | b
+  · simp [ResRel] at h
+  · exact ⟨b, rfl, h⟩
+
+theorem ResRel.error_left {ε α β : Type} {R : α → β → Prop} {x : Except ε α} {y : Except ε β}
+    {t : ε} (h : ResRel R x y) (hx : x = .error t) : y = .error t := by
+  subst hx
+  rcases y with ty | b
+  · simp only [ResRel] at h; rw [h]
+  · simp [ResRel] at h
+
+theorem ResRel.ok_right {ε α β : Type} {R : α → β → Prop} {x : Except ε α} {y : Except ε β} {b : β}
+    (h : ResRel R x y) (hy : y = .ok b) : ∃ a, x = .ok a ∧ R a b := by
+  subst hy
+  rcases x with tx | a
+  · simp [ResRel] at h
+  · exact ⟨a, rfl, h⟩
+
+theorem ResRel.error_iff {ε α β : Type} {R : α → β → Prop} {x : Except ε α} {y : Except ε β}
+    (h : ResRel R x y) (t : ε) : x = .error t ↔ y = .error t := by
+  rcases x with tx | a <;> rcases y with ty | b <;> simp only [ResRel] at h
+  · subst h; constructor <;> intro hh <;> cases hh <;> rfl
+  · constructor <;> intro hh <;> cases hh
+
+/-- `insert_sim` for a buffer whose bounds are in insertion order. -/
+theorem insert_sim_items (g : Nat → Nat → UInt8) (k v : Bytes) (fuel : Nat)
+    {b : EntriesB} {e : Entries} (h : Rep b e e.items) :
+    ResRel (fun rb re => rb.2 = re.2 ∧ Rep rb.1 re.1 re.1.items ∧ re.1.items = e.items ++ [(k, v)])
+      (insert g b k v fuel) (Entries.insert e k v fuel) := by
+  refine (insert_sim g k v fuel h).mono ?_
+  rintro ⟨b', evb⟩ ⟨e', eve⟩ _ he ⟨h1, h2⟩
+  obtain ⟨j, _, rfl, _⟩ := Entries.insert_ok h.inv he
+  exact ⟨h1, h2, rfl⟩
+
+/-! ### Runs of the buffer alone -/
+
+/-- Insert a list of entries with the fuel `Sorter.insert` uses. -/
+def insertAll (g : Nat → Nat → UInt8) : EntriesB → List Entry → Except Trap EntriesB
+  | b, [] => .ok b
+  | b, (k, v) :: r =>
+    match insert g b k v 64 with
+    | .error t => .error t
+    | .ok (b', _) => insertAll g b' r
+
+/-- `with_capacity(cap)` followed by the inserts of `l`. -/
+def run (g : Nat → Nat → UInt8) (cap : Nat) (l : List Entry) : Except Trap EntriesB :=
+  match withCapacity g cap with
+  | .error t => .error t
+  | .ok (b, _) => insertAll g b l
+
 end EntriesB
+
+namespace Entries
+
+def insertAll : Entries → List Entry → Except Trap Entries
+  | e, [] => .ok e
+  | e, (k, v) :: r =>
+    match insert e k v 64 with
+    | .error t => .error t
+    | .ok (e', _) => insertAll e' r
+
+def run (cap : Nat) (l : List Entry) : Except Trap Entries :=
+  match withCapacity cap with
+  | .error t => .error t
+  | .ok (e, _) => insertAll e l
+
+end Entries
+
+namespace EntriesB
+
+theorem insertAll_sim (g : Nat → Nat → UInt8) (l : List Entry) :
+    ∀ {b : EntriesB} {e : Entries}, Rep b e e.items →
+    ResRel (fun b' e' => Rep b' e' e'.items ∧ e'.items = e.items ++ l)
+      (insertAll g b l) (Entries.insertAll e l) := by
+  induction l with
+  | nil => intro b e h; simp [insertAll, Entries.insertAll, ResRel, h]
+  | cons kv l ih =>
+    intro b e h
+    obtain ⟨k, v⟩ := kv
+    have := insert_sim_items g k v 64 h
+    simp only [insertAll, Entries.insertAll]
+    revert this
+    generalize insert g b k v 64 = rb
+    generalize Entries.insert e k v 64 = re
+    rcases rb with tb | ⟨b', evb⟩ <;> rcases re with te | ⟨e', eve⟩ <;> simp only [ResRel]
+    · exact id
+    · exact False.elim
+    · exact False.elim
+    · rintro ⟨_, hr, hi⟩
+      refine (ih hr).mono ?_
+      intro b'' e'' _ _ ⟨h1, h2⟩
+      exact ⟨h1, by rw [h2, hi]; simp⟩
+
+/-- **Simulation of a whole run of the buffer.** -/
+theorem run_sim (g : Nat → Nat → UInt8) (cap : Nat) (l : List Entry) :
+    ResRel (fun b e => Rep b e e.items ∧ e.items = l) (run g cap l) (Entries.run cap l) := by
+  have := withCapacity_sim g cap
+  unfold run Entries.run
+  revert this
+  generalize withCapacity g cap = rb
+  generalize Entries.withCapacity cap = re
+  rcases rb with tb | ⟨b', evb⟩ <;> rcases re with te | ⟨e', eve⟩ <;> simp only [ResRel]
+  · exact id
+  · exact False.elim
+  · exact False.elim
+  · rintro ⟨_, hr, hi⟩
+    rw [← hi] at hr
+    refine (insertAll_sim g l hr).mono ?_
+    intro b'' e'' _ _ ⟨h1, h2⟩
+    exact ⟨h1, by rw [h2, hi]; rfl⟩
+
+/-- **After any run, `iter` returns exactly the inserted pairs, in insertion order.** -/
+theorem run_iter {g : Nat → Nat → UInt8} {cap : Nat} {l : List Entry} {b : EntriesB}
+    (h : run g cap l = .ok b) :
+    iter b = .ok l ∧ 16 * b.boundsCount + b.entriesLen ≤ b.buf.length := by
+  obtain ⟨e, _, hr, hi⟩ := (run_sim g cap l).ok_left h
+  rw [hi] at hr
+  exact ⟨hr.iter, hr.disjoint⟩
+
+end EntriesB
+
+/-! ### The sorter over the byte-level buffer simulates the sorter over the numeric one -/
+
+/-- The two sorters agree on everything but the representation of the buffer, whose bounds are in
+    insertion order. -/
+structure SRep (sb : SorterB) (s : Sorter) : Prop where
+  cfg    : sb.cfg = s.cfg
+  chunks : sb.chunks = s.chunks
+  events : sb.events = s.events
+  calls  : sb.calls = s.calls
+  rep    : EntriesB.Rep sb.entries s.entries s.entries.items
+
+/-- What remains comparable once the allocation has been released. -/
+structure SFin (sb : SorterB) (s : Sorter) : Prop where
+  cfg    : sb.cfg = s.cfg
+  chunks : sb.chunks = s.chunks
+  events : sb.events = s.events
+  calls  : sb.calls = s.calls
+
+namespace SorterB
+
+open EntriesB (ResRel Rep)
+open Sorter (SErr)
+
+theorem new_sim (g : Nat → Nat → UInt8) (cfg : SCfg) :
+    ResRel SRep (SorterB.new g cfg) (Sorter.new cfg) := by
+  have := EntriesB.withCapacity_sim g (if cfg.allowRealloc then cfg.initialSize else cfg.budget)
+  unfold SorterB.new Sorter.new
+  simp only
+  revert this
+  generalize EntriesB.withCapacity g _ = rb
+  generalize Entries.withCapacity _ = re
+  rcases rb with tb | ⟨b', evb⟩ <;> rcases re with te | ⟨e', eve⟩ <;> simp only [ResRel]
+  · rintro rfl; rfl
+  · exact False.elim
+  · exact False.elim
+  · rintro ⟨h1, hr, hi⟩
+    subst h1
+    exact ⟨rfl, rfl, rfl, rfl, by rw [hi]; exact hr⟩
+
+theorem writeChunk_sim (mf : MergeFn) {sb : SorterB} {s : Sorter} (h : SRep sb s) :
+    ResRel SRep (SorterB.writeChunk mf sb) (Sorter.writeChunk mf s) := by
+  obtain ⟨eb, hs, hr⟩ := h.rep.sortStable
+  unfold SorterB.writeChunk Sorter.writeChunk Sorter.writeChunkWith
+  rw [hs]
+  simp only
+  rw [hr.iter]
+  simp only
+  cases Sorter.mergeGroups mf (Sorter.sortStable s.entries.items) none [] [] with
+  | none => simp [ResRel]
+  | some r =>
+    obtain ⟨chunk, calls⟩ := r
+    simp only [ResRel]
+    exact ⟨h.cfg, by simp [h.chunks], by simp [h.events], by simp [h.calls], hr.clear⟩
+
+theorem mergeChunks_sim (mf : MergeFn) {sb : SorterB} {s : Sorter} (h : SRep sb s) :
+    ResRel SRep (SorterB.mergeChunks mf sb) (Sorter.mergeChunks mf s) := by
+  unfold SorterB.mergeChunks Sorter.mergeChunks
+  rw [h.chunks]
+  rcases Merger.run mf s.chunks with ⟨_ | merged, m⟩
+  · simp [ResRel]
+  · simp only [ResRel]
+    exact ⟨h.cfg, rfl, by simp [h.events], by simp [h.calls], h.rep⟩
+
+/-- Two related sorters are the same record up to the buffer. -/
+theorem srep_split {sb : SorterB} {s : Sorter} (h : SRep sb s) :
+    sb = { cfg := s.cfg, entries := sb.entries, chunks := s.chunks, events := s.events,
+           calls := s.calls } := by
+  obtain ⟨cfgb, eb, chb, evb, cab⟩ := sb
+  obtain ⟨h1, h2, h3, h4, _⟩ := h
+  simp only at h1 h2 h3 h4
+  subst h1 h2 h3 h4
+  rfl
+
+/-- **Simulation of `Sorter::insert`** (spill and chunk merge included). -/
+theorem insert_sim (mf : MergeFn) (g : Nat → Nat → UInt8) {sb : SorterB} {s : Sorter}
+    (h : SRep sb s) (k v : Bytes) :
+    ResRel SRep (SorterB.insert mf g sb k v) (Sorter.insert mf s k v) := by
+  have hwc := writeChunk_sim mf h
+  have hrep := h.rep
+  rw [srep_split h] at hwc ⊢
+  generalize sb.entries = eb at hwc hrep ⊢
+  unfold SorterB.insert Sorter.insert
+  simp only
+  rw [EntriesB.fits_eq_of_abs hrep.abs, ← hrep.abs.len]
+  cases hf : s.entries.fits k v with
+  | error t => simp [ResRel]
+  | ok fit =>
+    simp only
+    by_cases hc : (fit || (!decide (s.entries.bufLen ≥ s.cfg.budget) && s.cfg.allowRealloc)) = true
+    · simp only [hc, if_true]
+      have := EntriesB.insert_sim_items g k v 64 hrep
+      revert this
+      generalize EntriesB.insert g eb k v 64 = rb
+      generalize Entries.insert s.entries k v 64 = re
+      rcases rb with tb | ⟨b', evb⟩ <;> rcases re with te | ⟨e', eve⟩ <;> simp only [ResRel]
+      · rintro rfl; rfl
+      · exact False.elim
+      · exact False.elim
+      · rintro ⟨h1, hr, _⟩
+        subst h1
+        exact ⟨rfl, rfl, rfl, rfl, hr⟩
+    · simp only [hc, if_false, Bool.false_eq_true]
+      revert hwc
+      generalize SorterB.writeChunk mf _ = wb
+      generalize Sorter.writeChunk mf s = ws
+      rcases wb with tb | sb1 <;> rcases ws with te | s1 <;> simp only [ResRel]
+      · rintro rfl; rfl
+      · exact False.elim
+      · exact False.elim
+      · intro h1
+        have hrep1 := h1.rep
+        rw [srep_split h1]
+        generalize sb1.entries = eb1 at hrep1 ⊢
+        simp only
+        have := EntriesB.insert_sim_items g k v 64 hrep1
+        revert this
+        generalize EntriesB.insert g eb1 k v 64 = rb
+        generalize Entries.insert s1.entries k v 64 = re
+        rcases rb with tb | ⟨b', evb⟩ <;> rcases re with te | ⟨e', eve⟩ <;> simp only [ResRel]
+        · rintro rfl; rfl
+        · exact False.elim
+        · exact False.elim
+        · rintro ⟨h2, hr, _⟩
+          subst h2
+          have h2 : SRep { cfg := s1.cfg, entries := b', chunks := s1.chunks,
+                           events := s1.events ++ evb, calls := s1.calls }
+              { s1 with entries := e', events := s1.events ++ evb } :=
+            ⟨rfl, rfl, rfl, rfl, hr⟩
+          by_cases hm : s1.chunks.length ≥ s1.cfg.maxNb
+          · simp only [hm, if_true]
+            exact mergeChunks_sim mf h2
+          · simp only [hm, if_false]
+            exact h2
+
+/-- **Simulation of the final spill.** -/
+theorem finishChunks_sim (mf : MergeFn) {sb : SorterB} {s : Sorter} (h : SRep sb s) :
+    ResRel SFin (SorterB.finishChunks mf sb) (Sorter.finishChunks mf s) := by
+  unfold SorterB.finishChunks Sorter.finishChunks
+  have hw := writeChunk_sim mf h
+  revert hw
+  generalize SorterB.writeChunk mf sb = wb
+  generalize Sorter.writeChunk mf s = ws
+  rcases wb with tb | sb1 <;> rcases ws with te | s1 <;> simp only [ResRel]
+  · rintro rfl; rfl
+  · exact False.elim
+  · exact False.elim
+  · intro h1
+    simp only [Entries.drop, h1.rep.abs.live, Bool.not_true, Bool.false_eq_true, if_false]
+    exact ⟨h1.cfg, h1.chunks, by simp [h1.events, h1.rep.abs.len], h1.calls⟩
+
+theorem insertAll_sim (mf : MergeFn) (g : Nat → Nat → UInt8) (l : List Entry) :
+    ∀ {sb : SorterB} {s : Sorter}, SRep sb s →
+    ResRel SRep (SorterB.insertAll mf g sb l) (Sorter.insertAll mf s l) := by
+  induction l with
+  | nil => intro sb s h; simpa [SorterB.insertAll, Sorter.insertAll, ResRel] using h
+  | cons kv l ih =>
+    intro sb s h
+    obtain ⟨k, v⟩ := kv
+    have := insert_sim mf g h k v
+    simp only [SorterB.insertAll, Sorter.insertAll]
+    revert this
+    generalize SorterB.insert mf g sb k v = rb
+    generalize Sorter.insert mf s k v = re
+    rcases rb with tb | sb1 <;> rcases re with te | s1 <;> simp only [ResRel]
+    · exact id
+    · exact False.elim
+    · exact False.elim
+    · exact fun h1 => ih h1
+
+/-- **Simulation of a complete run**: the byte-level sorter and the numeric one return the same
+    error, or states that agree (`SFin`), related by `SRep` as long as the buffer is alive. -/
+theorem program_sim (mf : MergeFn) (g : Nat → Nat → UInt8) (cfg : SCfg) (l : List Entry)
+    (fin : Bool) :
+    ResRel (fun sb s => SFin sb s ∧ (fin = false → SRep sb s))
+      (SorterB.program mf g cfg l fin) (Sorter.program mf cfg l fin) := by
+  unfold SorterB.program Sorter.program
+  have hn := new_sim g cfg
+  revert hn
+  generalize SorterB.new g cfg = nb
+  generalize Sorter.new cfg = ns
+  rcases nb with tb | sb0 <;> rcases ns with te | s0 <;> simp only [ResRel]
+  · rintro rfl; rfl
+  · exact False.elim
+  · exact False.elim
+  · intro h0
+    have := insertAll_sim mf g l h0
+    revert this
+    generalize SorterB.insertAll mf g sb0 l = rb
+    generalize Sorter.insertAll mf s0 l = re
+    rcases rb with tb | sb1 <;> rcases re with te | s1 <;> simp only [ResRel]
+    · exact id
+    · exact False.elim
+    · exact False.elim
+    · intro h1
+      cases fin with
+      | false =>
+        simp only [Bool.false_eq_true, if_false]
+        exact ⟨⟨h1.cfg, h1.chunks, h1.events, h1.calls⟩, fun _ => h1⟩
+      | true =>
+        simp only [if_true]
+        refine (finishChunks_sim mf h1).mono ?_
+        intro a b _ _ hab
+        exact ⟨hab, fun hh => by cases hh⟩
+
+end SorterB
 end Grenad
